@@ -326,6 +326,22 @@ fn directed(sh: &mut Shard, tier: Tier) {
             case(sh, "foreign-escapes", &text, b);
         }
     }
+    // every builtin on texts of 20..70 and 120..135 and 250..260 characters that are not numbers, with one wide
+    // character at EVERY position (whatever a builtin cuts, quotes or measures, it must cut on a character)
+    for len in (20usize..=70).chain(120..=135).chain(250..=260) {
+        for p in 0..len {
+            for wide in ["é", "😀"] {
+                let t: String = (0..len).map(|i| if i == p { wide.to_string() } else { ((b'a' + (i % 26) as u8) as char).to_string() }).collect();
+                for b in ["int", "float", "bool", "lengte", "type", "string"] {
+                    case(sh, "builtin-on-long-text", &format!("{b}(\"{t}\")"), 20_000);
+                }
+                case(sh, "builtin-on-long-text", &format!("print(\"{t}\", 1)"), 20_000);
+                case(sh, "builtin-on-long-text", &format!("stel {t} = 1; {t}x"), 20_000);
+                case(sh, "builtin-on-long-text", &format!("1 + \"{t}\""), 20_000);
+                case(sh, "builtin-on-long-text", &format!("{t}(1)"), 20_000);
+            }
+        }
+    }
     // size ladders across the 8- and 16-bit limits
     let kmax = if tier == Tier::Quick { 17 } else { 18 };
     for k in 0..=kmax {
